@@ -18,7 +18,7 @@ def P(p, f):
     return sym.arrow(sym.sym(p), f)
 
 
-NOINLINE = summ.InlineLib(only=lambda f: False)
+NOINLINE = summ.LOCAL_HELPERS
 
 
 def check_monomial(chk, v, name, coefs, minus_one):
